@@ -238,6 +238,20 @@ func init() {
 				}
 				add(c)
 			}
+			// a value the default container REFUSES (a bool, a struct) between good queries in several representations, on a
+			// roaring index whose fields have catch-all conjunctions
+			{
+				c := rCase{Fields: []rField{{F: 0, Cont: "default"}, {F: 1, Cont: "default"}}}
+				c.Docs = []eDoc{
+					{ID: 1, Cons: []eConj{{{F: 0, Inc: true, V: tvSlice("[]int", tvInt("int", 1))}}}},
+					{ID: 2, Cons: []eConj{{{F: 0, Inc: true, V: tvSlice("[]string", tvStr("2"))}}}},
+					{ID: 3, Cons: []eConj{{{F: 1, Inc: true, V: tvStr("sh")}}}},
+					{ID: 4, Cons: []eConj{{{F: 1, Inc: false, V: tvStr("sh")}, {F: 0, Inc: true, V: tvFloat("float64", 2.5)}}}},
+				}
+				good := [][]eAssign{{{F: 0, V: tvFloat("float64", 2.0)}}, {{F: 0, V: tvJSON("1")}, {F: 1, V: tvStr("sh")}}, {{F: 0, V: tvList(tvStr("2"), tvInt("int8", 1))}, {F: 1, V: tvStr("bj")}}}
+				add(refusedQueryRounds(c, good, []eAssign{{F: 0, V: tvBool(true)}, {F: 1, V: tvStr("sh")}}, 6))
+				add(refusedQueryRounds(c, good, []eAssign{{F: 1, V: TV{T: "other:struct"}}, {F: 0, V: tvInt("int", 2)}}, 4))
+			}
 			// stock holders next to a holder whose factory reconfigures its own parser in place: floats, float lists and
 			// JSON-style untyped lists must keep matching by their integer part on the stock holders
 			for _, kind := range []string{"kgroups", "compact"} {
